@@ -437,4 +437,49 @@ theorem keys_pairs_self (d : List (Id × Ver)) (hn : (AList.keys d).Nodup) :
     have : k ≠ i := fun e => hn'.1 (by rw [e]; exact hi)
     simp only [this, if_false]
 
+/-! ### bulk insertion -/
+
+theorem add_fail_state (w : W) (k : Nat) (r : Ref) (h : (add w k r).2 ≠ .unit) : (add w k r).1 = w := by
+  unfold add at *
+  cases hl : liveObj w r with
+  | none => simp
+  | some o =>
+    by_cases hh : AList.has o.id w.disk = true
+    · simp [hh]
+    · simp [hl, hh] at h
+
+/-- the bulk insertion is the history of its `add`s, stopped at the first one that fails; that one's exception is the result
+    and it - like everything after it - leaves no trace -/
+theorem addMany_spec (k : Nat) : ∀ (rs : List Ref) (w : W),
+    ((addMany w k rs).2 = .unit ∧ (addMany w k rs).1 = run w (rs.map (Op.add k))) ∨
+    (∃ p r s, rs = p ++ r :: s ∧ (addMany w k p).2 = .unit ∧
+      (addMany w k rs).1 = run w (p.map (Op.add k)) ∧
+      (addMany w k rs).2 = (add (run w (p.map (Op.add k))) k r).2 ∧ (addMany w k rs).2 ≠ .unit)
+  | [], w => by left; simp [addMany, run]
+  | r :: rs, w => by
+    cases hadd : add w k r with
+    | mk w' o =>
+      by_cases ho : o = .unit
+      · subst ho
+        have hs : (step w (Op.add k r)).1 = w' := by simp [step, hadd]
+        rcases addMany_spec k rs w' with ⟨h1, h2⟩ | ⟨p, x, s, hrs, hp, hst, hout, hne⟩
+        · left
+          simp only [addMany, hadd, List.map_cons, run, hs]
+          exact ⟨h1, h2⟩
+        · right
+          refine ⟨r :: p, x, s, by simp [hrs], ?_, ?_, ?_, ?_⟩
+          · simp only [addMany, hadd]; exact hp
+          · simp only [addMany, hadd, List.map_cons, run, hs]; exact hst
+          · simp only [addMany, hadd, List.map_cons, run, hs]; exact hout
+          · simp only [addMany, hadd]; exact hne
+      · right
+        have hw : w' = w := by
+          have := add_fail_state w k r (by rw [hadd]; exact ho)
+          rw [hadd] at this; exact this
+        refine ⟨[], r, rs, rfl, by simp [addMany], ?_, ?_, ?_⟩
+        · cases o <;> simp_all [addMany, run]
+        · cases o <;> simp_all [addMany, run]
+        · cases o <;> simp_all [addMany]
+
+
 end Basyx.FileStore
